@@ -61,6 +61,8 @@ def gen_history(r):
             h.append("F " + L(rlanes(r)))
         elif k < 0.50:
             h.append("P " + rhexstr(r))
+        elif k < 0.505:
+            h.append("MT " + L(rlanes(r)))
         elif k < 0.58:
             a = rlanes(r)
             b = a if r.random() < 0.4 else rlanes(r)
@@ -89,6 +91,8 @@ CORPUS = [
     ["new 1 2 3 4 5 6 7 8", "get", "xor 1 2 3 4 5 6 7 8", "get"],      # h ^ h
     ["H ff", "H 80", "H -", "H 00"],
     ["X 1 2 3 4 5 6 7 8 1 2 3 4 5 6 7 8"],
+    ["H 616263", "H 61", "H 6162636465"],      # odd lengths in exact-size buffers
+    ["MT 1 2 3 4 5 6 7 8"],
 ]
 
 
@@ -108,7 +112,7 @@ def main(argv):
     else:
         n = 400 if ck.tier == "quick" else 20000
         hs = CORPUS + [gen_history(ck.rng) for _ in range(n)]
-    ck.correspond(hb, db, hs, label="hash_t", ubsan_is_violation=r"hash\.(cpp|hpp)|utils/string\.hpp")
+    ck.correspond(hb, db, hs, label="hash_t", timeout=1500, ubsan_is_violation=r"src/utils/hash\.cpp|occa/utils/hash\.hpp|internal/utils/string\.hpp")
     # cross-process determinism: the same byte strings hashed by a second process
     if hb and not ck.replay:
         probe = [["H " + rbytes(ck.rng) for _ in range(50)]]
